@@ -38,6 +38,7 @@ type Contract struct {
 	Panics   []*Clause // may-panic conditions (over the pre-state)
 	Modifies []ModTarget
 	GhostSets []GhostSet
+	NoMerge   bool
 	ModAny   bool // "modifies *": callers havoc everything (only for externs that run user code)
 	MayPanic bool // `panics *`: may panic under any circumstances
 	Pure     bool
@@ -134,7 +135,7 @@ var (
 )
 
 var blockKeywords = map[string]bool{"func": true, "extern": true, "functype": true, "trusted": true, "loop": true, "ghost": true, "spec": true, "opaque": true, "impl": true, "guarded": true, "lemma": true}
-var clauseKeywords = map[string]bool{"requires": true, "ensures": true, "xensures": true, "defines": true, "panics": true, "modifies": true, "invariant": true, "decreases": true, "expect": true, "vars": true, "pure": true, "ghostset": true, "reveals": true, "uses": true}
+var clauseKeywords = map[string]bool{"requires": true, "ensures": true, "xensures": true, "defines": true, "panics": true, "modifies": true, "invariant": true, "decreases": true, "expect": true, "vars": true, "pure": true, "ghostset": true, "reveals": true, "uses": true, "nomerge": true}
 
 func splitList(s string) []string {
 	var out []string
@@ -306,6 +307,12 @@ func (ct *ContractTable) parseLines(lines []rawLine, pkg string) error {
 			g := &GhostDecl{Name: strings.TrimSpace(rest[:i]), KeySort: splitList(rest[i+1 : j]), ValType: strings.TrimSpace(rest[j+1:])}
 			ct.Ghosts[g.Name] = g
 			curC, curL = nil, nil
+		case "nomerge":
+			// explore the branches of this function path by path (no ite-merging of states at joins)
+			if curC == nil {
+				return errf("nomerge outside function contract")
+			}
+			curC.NoMerge = true
 		case "uses":
 			if curC == nil {
 				return errf("uses outside function contract")
